@@ -9,7 +9,7 @@ git -C /repo worktree add --detach "$WT" HEAD >/dev/null 2>&1 || exit 2
 # the machinery itself runs from a snapshot, so that /verif can be edited while the matrix runs
 SNAP=/tmp/seedrun/verif-snap; rm -rf "$SNAP"; mkdir -p "$SNAP"
 rsync -a --exclude .git --exclude replays --exclude evidence --exclude seeded /verif/ "$SNAP"/
-ids="$@"; [ -z "$ids" ] && ids=$(ls /verif/seeded | sort)
+ids="$@"; [ -z "$ids" ] && ids=$(ls -d /verif/seeded/*/ | xargs -n1 basename | sort)
 : > /tmp/seedrun/matrix.txt
 for id in $ids; do
   P=${id%-*}
